@@ -143,11 +143,8 @@ example : ([3, -4, 1].foldl (fun b k => b.shift k) exB).at 2 := by
 
 /-- **text pin**: the generated functions this property's hand-written model describes have, in
     /repo today, exactly the text the model was written from (`Soa/Model/Pinned.lean`) -/
-theorem bodies_pinned :
-    Soa.Extracted.bodies.filter (fun r => Soa.Model.scopeOf r == "C10") =
-    Soa.Model.pinned.filter (fun r => Soa.Model.scopeOf r == "C10") := by decide +kernel
+theorem bodies_pinned : Soa.Extracted.bodies_C10 = Soa.Model.pinned_C10 := rfl
 
-theorem bodies_pinned_nonempty :
-    (Soa.Model.pinned.filter (fun r => Soa.Model.scopeOf r == "C10")).length ≥ 4 := by decide +kernel
+theorem bodies_pinned_nonempty : Soa.Model.pinned_C10.length ≥ 4 := by decide
 
 end Soa.C10
